@@ -168,10 +168,25 @@ PARTS = {
         goals_cfg="MC_Talk.cfg", goals=["GoalDropAfterShutdown", "GoalRespondAfterShutdown"],
         sim={"quick": [dict(cfg="MC_Talk_sim.cfg", num=60, depth=14)], "thorough": [dict(cfg="MC_Talk_sim.cfg", num=1500, depth=20)]},
         required=lambda events: [n for n in ["talk_respond", "talk_drop", "shutdown"] if not any(e["op"]["o"] == n for e in events)]),
+    "svc_nodes": _svc_common({"C11.UnrequestedAccepted": "C11", "C11.RequestedDropped": "C11", "C11.HonestBanned": "C11", "C11.NotBanned": "C11"},
+        spec="MC_Nodes.tla", mc={"quick": ["MC_Nodes.cfg"], "thorough": ["MC_Nodes.cfg"]},
+        sim={"quick": [dict(cfg="MC_Nodes_sim.cfg", num=300, depth=9)], "thorough": [dict(cfg="MC_Nodes_sim.cfg", num=6000, depth=22)]},
+        fixed_behaviours=[
+            # adjacent ids: request [1, 2, 0]; the honest second node answers with its own record (distance 0)
+            [{"o": "reset", "mode": "ip4"}, {"o": "add_enr", "rec": "p2:1:v4"}, {"o": "lookup", "target": {"xor": ["p2", 0]}}, {"o": "honest_reply", "req": "r1", "table": ["p3:1:v4", "p4:1:v4"]}],
+            # the lookup target is the peer itself: request [0]; answered with a foreign record
+            [{"o": "reset", "mode": "ip4"}, {"o": "add_enr", "rec": "p2:1:v4"}, {"o": "lookup", "target": {"peer": "p2"}}, {"o": "response_in", "req": "r1", "body": {"t": "nodes", "total": 1, "recs": ["p5:1:v4"]}}],
+            # 15 packets are the most a responder can make the node collect
+            [{"o": "reset", "mode": "ip4"}, {"o": "add_enr", "rec": "p2:1:v4"}, {"o": "lookup", "target": {"xor": ["p2", 254]}}]
+            + [{"o": "response_in", "req": "r1", "body": {"t": "nodes", "total": 99, "recs": ["p%d:1:v4" % (3 + i)]}} for i in range(17)],
+        ],
+        required=lambda events: [n for n in ["ban", "honest_reply", "discovered"] if n not in
+                                 {("ban" if e["obs"]["bans"]["nodes"] else "") for e in events} | {e["op"]["o"] for e in events}
+                                 | {("discovered" if any(x["e"] == "Discovered" for x in e["obs"]["ev"]) else "") for e in events}]),
     "svc_serve": _svc_common({"C14.NoAnswer": "C14", "C14.WrongIdOrPeer": "C14", "C14.Total": "C14", "C14.TooBig": "C14", "C14.OwnRecord": "C14",
                               "C14.ForeignRecord": "C14", "C14.Missing": "C14", "C14.TooManyOrDuplicate": "C14", "C14.Pong": "C14"},
         spec="MC_Serve.tla", mc={"quick": ["MC_Serve.cfg"], "thorough": ["MC_Serve_9.cfg", "MC_Serve_17.cfg"]},
-        sim={"quick": [dict(cfg="MC_Serve_sim.cfg", num=40, depth=40)], "thorough": [dict(cfg="MC_Serve_sim.cfg", num=600, depth=60)]},
+        sim={"quick": [dict(cfg="MC_Serve_sim.cfg", num=120, depth=40)], "thorough": [dict(cfg="MC_Serve_sim.cfg", num=600, depth=60)]},
         required=lambda events: [n for n in ["multi-packet", "own", "ping"] if n not in
                                  {("multi-packet" if any(h["k"] == "Response" and h["body"].get("total", 1) > 1 for h in e["obs"]["hin"]) else "") for e in events}
                                  | {("own" if any(h["k"] == "Response" and any(r.startswith("L:") for r in h["body"].get("recs", [])) for h in e["obs"]["hin"]) else "") for e in events}
@@ -272,6 +287,7 @@ PROPS = {
     "C10": dict(parts=[dict(name="query")]),
     "C13": dict(parts=[dict(name="handler")]),
     "C19": dict(parts=[dict(name="handler")]),
+    "C11": dict(parts=[dict(name="svc_nodes")]),
     "C14": dict(parts=[dict(name="svc_serve")]),
     "C20": dict(parts=[dict(name="svc_talk")]),
     "C15": dict(parts=[dict(name="lru"), dict(name="handler", mc={"quick": [], "thorough": ["MC_Handler_time.cfg"]})]),
